@@ -161,6 +161,24 @@ class SymK(KBase):
             self.names.append((name, 'chars', items))
             return s
 
+    def conc_bits(self, x):
+        """concrete twin of a (symbolic) model bitarray; the solver enumerates every content"""
+        import bitarray
+        from crosshair.tracers import NoTracing
+        from crosshair.core import realize
+        from crosshair.libimpl.builtinslib import SymbolicInt
+        import z3
+        n = len(x)
+        if n == 0:
+            return bitarray.bitarray()
+        with NoTracing():
+            v = x._v
+            if isinstance(v, int):
+                return bitarray.bitarray._mk(n, v)
+            sv = SymbolicInt(z3.BV2Int(v))
+        c = realize(sv)
+        return bitarray.bitarray._mk(n, int(c))
+
     def untraced(self, f):
         """run f with CrossHair tracing off (for building concrete C-level objects whose CrossHair model is incomplete)"""
         from crosshair.tracers import NoTracing
@@ -317,6 +335,9 @@ class ConcK(KBase):
 
     def chars(self, name, k, lo=0, hi=127):
         return ''.join(chr(c) for c in self._get(name)['chars'])
+
+    def conc_bits(self, x):
+        return x
 
     def untraced(self, f):
         return f()
